@@ -89,7 +89,7 @@ var (
 )
 
 // FuncValue returns, for an identifier that denotes a local variable assigned exactly once in its package's
-// source from a method value (`x.m`) or a declared function, that right-hand side; nil otherwise.
+// source from a method value (`x.m`), a declared function or a function literal, that right-hand side; nil otherwise.
 func (f *Func) FuncValue(x ast.Expr) ast.Expr {
 	id, ok := ast.Unparen(x).(*ast.Ident)
 	if !ok || f.Pkg == nil {
@@ -129,6 +129,8 @@ func (f *Func) FuncValue(x ast.Expr) ast.Expr {
 				if _, isFunc := f.Info.Uses[t].(*types.Func); isFunc {
 					idx[o] = t
 				}
+			case *ast.FuncLit:
+				idx[o] = t // a closure held in a local: `step := func(..) {..}; step(..)`
 			}
 		}
 		for _, file := range f.Pkg.Syntax {
@@ -348,6 +350,9 @@ type Config struct {
 	// Inline, when set, is asked for the body of a statically resolved callee; a non-nil answer
 	// (a Func of the same package) makes the engine interpret the call in place (see inline.go).
 	Inline func(call *ast.CallExpr, callee *types.Func) *Func
+	// InlineClosures additionally interprets in place the calls of a closure held in a local that is assigned
+	// exactly once (`reject := func(..) {..}; reject(..)`); needs Inline to be set (it may always answer nil).
+	InlineClosures bool
 	// OnInline is called when an inlined call is entered (after the parameters were bound) and when it is left
 	// (after the facts about aliased parameters were copied back, before the results are assigned): rules that
 	// carry their own event facts per variable move them across the call here.
@@ -403,6 +408,7 @@ type Engine struct {
 	indexed     map[*ast.BlockStmt]bool
 	skipCall    map[*ast.CallExpr]bool
 	skipAll     bool // do not fire call events (the expression was evaluated already)
+	litFuncs    map[*ast.FuncLit]*types.Func
 }
 
 func (e *Engine) curType() *ast.FuncType {
